@@ -13,7 +13,8 @@ RULE = ("streams from the independent reference producer (random legal policy: e
         "frames, metadata, repeated identical options rows, split and empty graphs, delimited or single frame, versions 1-2, "
         "names 8..4096, prefixes/datatypes 0..4096), each first verified by the reference decoder, parsed with the six "
         "parse entry points; oracle: events == intended events (sequence for flat/generic, per frame for grouped, set "
-        "for rdflib stores). Non-trivial: the stream actually used >= 2 kinds of legal-but-unlike-pyjelly choices; "
+        "for rdflib stores); flat and to_graph are repeated from a seekable input positioned after a foreign preamble and "
+        "from non-seekable raw and buffered inputs (whole and 1-3 byte reads). Non-trivial: the stream actually used >= 2 kinds of legal-but-unlike-pyjelly choices; "
         "distinct by hash of the byte string.")
 ASSUMPTIONS = [
     "valid streams never use version 0, tables > 4096 or a metadata-only first frame (DESIGN 3.5)",
@@ -100,6 +101,19 @@ def check_parsers(mode: str, pr: refenc.Produced, entries=None):
                             return {"clause": "events-differ", "entry": f"{integ}:{entry}@offset",
                                     "summary": f"{integ}:{entry}: a stream handed over at a non-zero position of a seekable "
                                                f"input parses differently from the same bytes at position 0"}
+                        # ... and the same bytes arriving through inputs that cannot seek (a pipe, a socket file, an
+                        # HTTP body): raw and buffered, whole reads and short reads
+                        import io as _io
+
+                        from .. import sources
+                        import zlib
+                        sched = [[1 << 20], [1], [2, 1 << 20], [3], [1, 1, 1 << 20]][zlib.crc32(pr.data) % 5]
+                        for nm, f in (("raw", sources.DribbleRaw(pr.data, sched)),
+                                      ("buffered", _io.BufferedReader(sources.DribbleRaw(pr.data, sched)))):
+                            if T.norm_events(pj.parse(integ, entry, f)) != got:
+                                return {"clause": "events-differ", "entry": f"{integ}:{entry}@nonseekable-{nm}", "schedule": sched,
+                                        "summary": f"{integ}:{entry}: the stream read from a non-seekable {nm} input (read sizes {sched}) "
+                                                   f"parses differently from the same bytes in a BytesIO"}
             except Exception as e:  # noqa: BLE001
                 return {"clause": "parser-raised", "entry": f"{integ}:{entry}",
                         "summary": f"{integ}:{entry} raised {type(e).__name__}: {e}"}
